@@ -458,7 +458,11 @@ class Parser:
             out.append(defs.MathBeginToken(tok.pos, name, env))
             return out
         if env.remove:
+            n_extracted = len(self.extracted)
             out += self.expand_sequence(buf, env_stop=name)
+            # the content is removed: this includes text flows like
+            # footnotes extracted from it (NB: keep the list object)
+            del self.extracted[n_extracted:]
         return out
 
     #   close an environment
